@@ -42,7 +42,7 @@ pub enum Tag {
     RecurseInc,
 }
 
-pub const TEMPLATES: [(&str, Tag); 118] = [
+pub const TEMPLATES: [(&str, Tag); 121] = [
     ("\"x\" * #N", Tag::Repeat),
     ("#N * \"x\"", Tag::Repeat),
     ("\"abc\" * #N", Tag::Repeat),
@@ -60,6 +60,9 @@ pub const TEMPLATES: [(&str, Tag); 118] = [
     ("null | .[#N] |= 5", Tag::Grow),
     ("[limit(3; range(#N))]", Tag::Plain),
     ("[limit(3; range(#N; #M))]", Tag::Plain),
+    ("[limit(3; range(#N; #M; 5))]", Tag::Plain),
+    ("[limit(2; [1,2] | combinations(#N))]", Tag::Plain),
+    ("[limit(3; range(9223372036854775806; 9223372036854775807; #N))]", Tag::Plain),
     ("first(range(#N))", Tag::Plain),
     ("[range(#N)] | length", Tag::Range1),
     ("[range(0; #N; #M)] | length", Tag::Range3),
@@ -293,6 +296,24 @@ pub fn string_programs(quick: bool) -> Vec<(String, String)> {
     for (k, t) in unary.iter().enumerate() {
         for a in strs {
             out.push((format!("stru{k}/0"), t.replace("#S", &lit(a))));
+        }
+    }
+    // generators that yield some values and THEN raise (the evaluator's "partial" results), cut down by the stream
+    // filters until possibly no value is left before the error, in every kind of consumer position: an argument that
+    // must be a single value, a condition, a path, a key, a binding ...
+    let gens = ["(\"a\", error(\"x\"))", "(1, 2, error(\"x\"))", "(\"1\", \"x\" | tonumber)", "(0, (null | error))", "(\"a\", (label $o | break $o), error(\"y\"))"];
+    let filts = ["#G", "skip(1; #G)", "skip(2; #G)", "skip(5; #G)", "limit(1; #G)", "limit(0; #G)", "first(#G)", "nth(1; #G)", "last(#G)", "isempty(#G)", "[#G][1:][]", "(#G | select(. == \"zz\"))"];
+    let cons = [
+        "#F", "[#F]", "has(#F)", "ltrimstr(#F)", "limit(#F; 1, 2)", "flatten(#F)", "first(#F)", "try (#F) catch \"caught\"", ".[#F]?", "getpath([#F])", "[range(#F)]", "index(#F)", "join(#F)?", "test(#F)?",
+        "#F as $x | $x", "reduce (#F) as $x (0; . + 1)", "path(#F)?", "{a: (#F)}", "{(#F): 1}?", "(#F) // 1", "if (#F) then 1 else 2 end", "[.[]? | #F]", "(#F) + 1", "[#F, 3]", "splits(#F)?", "setpath([#F]; 1)?",
+        "del(.[#F])?", "to_entries | map(#F)?", "@base64 \"\\(#F)\"", "[limit(3; repeat(#F))]", "any(#F; .)", "all(#F; .)", "IN(#F)", "(#F) as [$a] | $a", "input_line_number | #F",
+    ];
+    for (gi, g) in gens.iter().enumerate() {
+        for (fi, f) in filts.iter().enumerate() {
+            let ff = f.replace("#G", g);
+            for c in cons.iter() {
+                out.push((format!("part{}x{}/0", gi, fi), c.replace("#F", &ff)));
+            }
         }
     }
     // `fromjson` / `tonumber` parse JSON *text held in a string* with a hand-written parser of their own: every
